@@ -10,6 +10,11 @@ HARNESSES = {
     "rclient0": ("rclient.cpp", ["RCLIENT_GROUP=0"]),
     "rclient1": ("rclient.cpp", ["RCLIENT_GROUP=1"]),
     "rclient2": ("rclient.cpp", ["RCLIENT_GROUP=2"]),
+    "qhist0": ("qhist.cpp", ["QHIST_GROUP=0"]),
+    "qhist1": ("qhist.cpp", ["QHIST_GROUP=1"]),
+    "qhist2": ("qhist.cpp", ["QHIST_GROUP=2"]),
+    "qhist3": ("qhist.cpp", ["QHIST_GROUP=3"]),
+    "qhist4": ("qhist.cpp", ["QHIST_GROUP=4"]),
 }
 
 
@@ -59,6 +64,32 @@ def c17_jobs(tier):
         job("rclient1", n, workers=5, tag=tag, step_cap=60000),
         job("rclient2", n, workers=6, tag=tag, step_cap=60000),
     ]
+
+
+def qtag(tier, prop):
+    return prop + ("+quick" if tier != "thorough" else "")
+
+
+def c04_jobs(tier):
+    n = scale(tier, 60000, 2500000)
+    return [job("qhist0", n, workers=5, tag=qtag(tier, "C04"), plain_pct=15),
+            job("qhist1", n, workers=5, tag=qtag(tier, "C04"), plain_pct=15),
+            job("qhist2", n, workers=6, tag=qtag(tier, "C04"), plain_pct=15)]
+
+
+def c05_jobs(tier):
+    n = scale(tier, 240000, 6000000)
+    return [job("qhist3", n, workers=16, tag=qtag(tier, "C05"), plain_pct=15)]
+
+
+def c06_jobs(tier):
+    n = scale(tier, 160000, 5000000)
+    return [job("qhist4", n, workers=16, tag=qtag(tier, "C06"), plain_pct=15)]
+
+
+def c07_jobs(tier):
+    n = scale(tier, 40000, 1500000)
+    return [job("qhist%d" % g, n, workers=w, tag=qtag(tier, "C07")) for g, w in ((0, 3), (1, 4), (2, 3), (3, 3), (4, 3))]
 
 
 NOT_YET = {}
@@ -124,5 +155,68 @@ PROPS = {
                 "order of destructions.",
         "nontrivial_floor": 0.02,
         "assumptions": ["sequentially consistent interleavings", "bookkeeping = every heap block allocated by xenium code outside client node allocations"],
+    },
+    "C04": {
+        "jobs": c04_jobs,
+        "level_text": "Sampled exploration of queue histories: every generated history (sequential prefix, 2-4 concurrent threads, final "
+                      "drain) is decided by an exact linearizability check against the sequential FIFO specification.",
+        "level_note": "Trusted: runtime, the Wing-Gong/Lowe checker (engine/lin.hpp), precedence = real-time order of the harness's "
+                      "invocation/response stamps under the scheduler; SC interleavings only here.",
+        "technique": "property-based testing: generated queue programs + generated schedules vs linearizability checker (FIFO spec) and drain conservation",
+        "rule": "case = queue configuration (michael_scott / ramalhete with 1-3 entries per node and 0-2 pop retries / nikolaev with 1-4 "
+                "entries per node) x element type (tracked value, unique_ptr, raw pointer, uint32) x reclaimer x program (prefix of up to 12 "
+                "sequential pushes/pops, 2-4 threads x up to 6 push/try_pop/pop operations, drain in 7 of 8 cases) x generated schedule. "
+                "Oracle: Wing-Gong linearizability search against the FIFO specification (pop-empty only on the empty state), element "
+                "lifecycle registry, quarantine allocator, xenium's assertions. Non-trivial: operations of different threads overlap AND a "
+                "node was allocated inside the concurrent part. Distinct: program + history (ids and results).",
+        "nontrivial_floor": 0.2,
+        "assumptions": ["sequentially consistent interleavings", "histories of at most 64 operations"],
+    },
+    "C05": {
+        "jobs": c05_jobs,
+        "level_text": "Sampled exploration of bounded-queue histories decided by an exact linearizability check against the bounded FIFO "
+                      "specification with the permissive readings the statement allows (weak failures always allowed and no-ops; "
+                      "nikolaev_bounded full = stored elements + overlapping operations >= capacity).",
+        "level_note": "Trusted: runtime, checker, specification encoding; SC interleavings only here.",
+        "technique": "property-based testing: generated bounded-queue programs + schedules vs linearizability checker (bounded FIFO spec)",
+        "rule": "case = vyukov_bounded_queue (size 2/4/8; strong, weak and default operations mixed) or nikolaev_bounded_queue (requested "
+                "capacity 1,2,3,4,5,8, rounded up) x element type x program (prefix of up to 18 operations so that the ring wraps, 2-4 threads "
+                "x up to 6 operations, drain with strong pops) x generated schedule. Oracle: linearizability against the bounded FIFO "
+                "specification, lifecycle registry, quarantine allocator. Non-trivial: a full/empty verdict was returned while another "
+                "operation overlapped AND more values were accepted than the capacity (ring wrapped). Distinct: program + history.",
+        "nontrivial_floor": 0.2,
+        "assumptions": ["sequentially consistent interleavings"],
+    },
+    "C06": {
+        "jobs": c06_jobs,
+        "level_text": "Sampled exploration of k-FIFO histories decided by a linearizability check against the k-relaxed FIFO specification; "
+                      "the start slot of every segment scan (utils::random) is a recorded, generated decision.",
+        "level_note": "Trusted: runtime, checker, specification encoding (pop = any of the k oldest; empty allowed with fewer than k elements "
+                      "under overlap; bounded push failure needs (segments-1)*k+1 stored elements).",
+        "technique": "property-based testing: generated programs + schedules + generated random-slot decisions vs linearizability checker (k-FIFO spec)",
+        "rule": "case = kirsch_kfifo_queue (k 1-4, reclaimer menu) or kirsch_bounded_kfifo_queue (k 1-3, 1-4 segments) x element type x "
+                "program x generated schedule x generated values for every utils::random() call. Oracle: linearizability against the "
+                "k-relaxed FIFO, conservation through the drain, lifecycle registry, quarantine allocator, hang detection in sequential "
+                "phases. Non-trivial: operations overlapped AND (the drain order differs from push order, or a segment was allocated in the "
+                "concurrent part, or a failure verdict was returned under overlap). Distinct: program + history.",
+        "nontrivial_floor": 0.2,
+        "assumptions": ["sequentially consistent interleavings"],
+    },
+    "C07": {
+        "jobs": c07_jobs,
+        "level_text": "Sampled exploration: owning payloads through all seven queue types, queue destroyed with elements inside in 3 of 4 "
+                      "cases; the element lifecycle registry decides exactly-once hand-over or destruction.",
+        "level_note": "Trusted: runtime, Tracked payload bookkeeping; by-value try_push APIs may destroy a rejected value through their own "
+                      "parameter object (counted as the caller's copy).",
+        "technique": "property-based testing: generated programs + schedules vs element-lifecycle census after queue destruction",
+        "rule": "case = queue type (michael_scott, ramalhete, nikolaev, nikolaev_bounded, vyukov_bounded, kirsch_kfifo, kirsch_bounded_kfifo) "
+                "x owning element kind (tracked move-only value, unique_ptr<Tracked>, raw Tracked* owned by the harness) x program x "
+                "schedule; the queue is destroyed without draining in 3 of 4 cases. Oracle: every element content is alive in exactly one "
+                "place, handed to at most one consumer, destroyed exactly once overall (by consumer, by the queue, or by the caller's own "
+                "rejected argument), never destroyed by the queue when it is a raw pointer, a failed forwarding-reference try_push leaves "
+                "the caller's object intact; quarantine allocator for double frees. Non-trivial: the queue was destroyed non-empty after "
+                "internal nodes/segments had been allocated (or it is a ring). Distinct: program + history.",
+        "nontrivial_floor": 0.1,
+        "assumptions": ["sequentially consistent interleavings"],
     },
 }
